@@ -512,6 +512,57 @@ pub fn run_expiry(ctx: &mut Ctx, mode: Mode) {
             v
         },
     );
+    if mode == Mode::C18 {
+        // Very long principal variations: blocked pawn chains with only the kings to move are searched
+        // to depth 14 and beyond within a second, and the printed pv (lengthened further by the
+        // null-move ply offset) grows past 25 moves. One far horizon per position, lines judged.
+        let horizon = t.pick(3_000_000u64, 8_000_000u64);
+        run_prop(
+            ctx,
+            "long_principal_variations_in_blocked_positions",
+            || (proptest::collection::vec((0u8..8, 1u8..5), 3..7), 0u8..64, 0u8..64, any::<bool>()),
+            t.pick(96, 800),
+            move |(pairs, wk, bk, wtm), st| {
+                let mut p = Pos::empty();
+                for &(f, r) in pairs {
+                    let (a, b) = (mk(f as i8, r as i8).unwrap(), mk(f as i8, r as i8 + 1).unwrap());
+                    if p.sq[a as usize].is_none() && p.sq[b as usize].is_none() {
+                        p.sq[a as usize] = Some((Color::White, Kind::Pawn));
+                        p.sq[b as usize] = Some((Color::Black, Kind::Pawn));
+                    }
+                }
+                if p.sq[*wk as usize].is_some() || p.sq[*bk as usize].is_some() || wk == bk {
+                    return Ok(());
+                }
+                p.sq[*wk as usize] = Some((Color::White, Kind::King));
+                p.sq[*bk as usize] = Some((Color::Black, Kind::King));
+                p.stm = if *wtm { Color::White } else { Color::Black };
+                if !p.is_legal_position() || p.legal_moves().is_empty() {
+                    return Ok(());
+                }
+                // keep it a pure shuffling position: no pawn may be capturable at once
+                if p.legal_moves().iter().any(|m| p.is_capture(m)) {
+                    return Ok(());
+                }
+                let Ok(case) = make_case(&p, &[]) else { return Ok(()) };
+                st.eval();
+                st.sample(|| case_json(&p, &[]));
+                let run = run_search(&case.board, &case.table, horizon);
+                if run.panic.is_some() {
+                    return Ok(()); // C07's subject
+                }
+                let raw: Vec<String> = run.lines.iter().map(|x| x.1.clone()).collect();
+                let infos = c18_lines(&case.root, &raw, st).map_err(|e| format!("{} ['{}', clock expiring at consultation {}]", e, p.fen(), horizon))?;
+                let longest = infos.iter().map(|i| i.pv.len()).max().unwrap_or(0);
+                st.label(&format!("longest_pv_{}", if longest >= 26 { "26_or_more" } else if longest >= 16 { "16_to_25" } else { "up_to_15" }));
+                if longest >= 26 {
+                    st.nontrivial(fp(&p));
+                }
+                Ok(())
+            },
+            move |(pairs, wk, bk, wtm)| json!({"long_pv": true, "pairs": pairs, "wk": wk, "bk": bk, "wtm": wtm, "horizon": horizon}),
+        );
+    }
     if mode == Mode::C07 {
         // Small trees searched very deep: endgames in which the side to move can repeat a position
         // (every other line is cut at once), so that within a few thousand consultations the
@@ -550,6 +601,28 @@ pub fn run_expiry(ctx: &mut Ctx, mode: Mode) {
 }
 
 pub fn replay_expiry(case: &Value, mode: Mode) -> CaseResult {
+    if case.get("long_pv").is_some() {
+        let mut p = Pos::empty();
+        for pr in case.get("pairs").and_then(|x| x.as_array()).cloned().unwrap_or_default() {
+            let f = pr.get(0).and_then(|x| x.as_u64()).unwrap_or(0) as i8;
+            let r = pr.get(1).and_then(|x| x.as_u64()).unwrap_or(1) as i8;
+            let (a, b) = (mk(f, r).ok_or("bad pair")?, mk(f, r + 1).ok_or("bad pair")?);
+            if p.sq[a as usize].is_none() && p.sq[b as usize].is_none() {
+                p.sq[a as usize] = Some((Color::White, Kind::Pawn));
+                p.sq[b as usize] = Some((Color::Black, Kind::Pawn));
+            }
+        }
+        let wk = case.get("wk").and_then(|x| x.as_u64()).unwrap_or(0) as usize;
+        let bk = case.get("bk").and_then(|x| x.as_u64()).unwrap_or(63) as usize;
+        p.sq[wk] = Some((Color::White, Kind::King));
+        p.sq[bk] = Some((Color::Black, Kind::King));
+        p.stm = if case.get("wtm").and_then(|x| x.as_bool()).unwrap_or(true) { Color::White } else { Color::Black };
+        let horizon = case.get("horizon").and_then(|x| x.as_u64()).unwrap_or(1_500_000);
+        let c = make_case(&p, &[])?;
+        let run = run_search(&c.board, &c.table, horizon);
+        let raw: Vec<String> = run.lines.iter().map(|x| x.1.clone()).collect();
+        return c18_lines(&c.root, &raw, &mut Stats::new()).map(|_| ());
+    }
     let (start, moves) = parse_game_case(case)?;
     let kmax = case.get("kmax").and_then(|x| x.as_u64()).unwrap_or(1500);
     let deep: Vec<u64> = case.get("deep").and_then(|x| x.as_array()).map(|a| a.iter().filter_map(|v| v.as_u64()).collect()).unwrap_or_default();
